@@ -1,6 +1,29 @@
 """What is claimed in MANIFEST.json, per property (text = assurance, note = assumptions)."""
 
-CLAIMS: dict[str, dict] = {}
+_BASE_NOTE = ("Static analysis of the current /repo source only (ast; nothing is imported or run). Sound for the stated "
+              "model: asyncio switches tasks only at await; calls in the 'total' table (logging, container methods, "
+              "OpenTelemetry API) do not raise; device / library code is opaque and may raise Exception. Trusted base: "
+              "CPython ast parser, the CFG builder and solvers in /verif/bsa. Clauses marked 'not decided' in the evidence "
+              "explanation are outside the claim.")
+
+
+def _c(text, technique, note="", level="other"):
+    return {"text": text, "technique": technique, "note": (note + " " if note else "") + _BASE_NOTE, "level": level}
+
+
+CLAIMS: dict[str, dict] = {
+    "C07": _c(
+        "Decides, for every interleaving at await granularity of the five request coroutines with RunEngine._run, that "
+        "each assignment to _state made by _run (or by a handler on its behalf) is in the transition table for every "
+        "reachable abstract tuple (state, run-permit, resumable, cancel-pending); that every exit of _run passes "
+        "_state='idle' on every path including CancelledError/Exception edges; that _state is written only by RunEngine "
+        "with literal states through the checking setter; and that the blocking entry points are guarded. The behaviour "
+        "under real timing is not decided; today's tree has the F-1 family of known findings (engine stuck when a request "
+        "lands during the epilogue).",
+        "thread-modular typestate fixpoint over a CFG with exceptional edges; post-dominance (must-pass-through); ownership table",
+        "Request alphabet: pause, deferred pause, suspend, abort, stop, halt, main-thread permit set; KeyboardInterrupt / "
+        "'panicked' path and commands added with register_command are outside the model."),
+}
 
 NOT_APPLICABLE = {
     "C26": "statement is about values produced by numpy index arithmetic (tile/repeat/reverse); no clause is visible in "
